@@ -48,8 +48,14 @@ func NativeToObject(val any) Object {
 	case reflect.Map:
 		return nativeMapToObject(val)
 	case reflect.Pointer:
+		ptr := reflect.ValueOf(val)
+
+		if ptr.IsNil() {
+			return &Nil{}
+		}
+
 		// NativeToObject is used recursively to handle pointers
-		return NativeToObject(reflect.ValueOf(val).Elem().Interface())
+		return NativeToObject(ptr.Elem().Interface())
 	}
 
 	return nil
